@@ -249,6 +249,8 @@ def build(tree):
         if kind == ALIASED:
             c.add_alias(ALIASES[i])
         if kind in (DEFAULT, DEFHID):
+            if i % 2:
+                c.anonymous()  # first declared anonymous, then re-declared a (named) default command: the last word counts
             c.default()
         if kind == ANON:
             c.anonymous()
@@ -830,8 +832,57 @@ def replay_shared(case):
     return None
 
 
+# ---------------------------------------------------------------------------------------------
+# two command lines resolved at the same time on ONE application (E3, mc/sched.py)
+# ---------------------------------------------------------------------------------------------
+CONC_TREE = ((-1, PLAIN, 0), (0, DEFAULT, 1), (0, DEFAULT, 1))   # n0 with two default sub-commands n1, n2 (one argument each)
+CONC_PAIRS = [(("n0", "v"), ("n0", "v", "w", "x")), (("n0", "n2", "v"), ("n0", "v")), (("n0",), ("n0", "n1", "--o1"))]
+
+
+def _outcome_of(obs):
+    if obs[0] == "exc":
+        return ["exc", obs[1]]
+    return ["sel", obs[1], dict(obs[2].args.arguments(False)), dict(obs[2].args.options(False))]
+
+
+def concurrent_resolutions(only=None):
+    """every interleaving (source lines of default_args_parser.py, <= 1 preemption) of two resolve_command() calls on one
+    application: each gives what it gives alone.  -> (schedules, violations)"""
+    from mc import sched
+    execs, allv = 0, []
+    for pi_, pair in enumerate(CONC_PAIRS):
+        if only is not None and pi_ != only[0]:
+            continue
+        alone = build(CONC_TREE)[0]
+        want = [_outcome_of(observe(alone, t)) for t in pair]
+
+        def run(ch):
+            app = build(CONC_TREE)[0]
+            s_, got, exc, alive = sched.run_pair(ch, [lambda t=t: _outcome_of(observe(app, t)) for t in pair], "args/default_args_parser.py", horizon=20000)
+            case = {"check": "concurrent", "pair": pi_, "choices": [p.chosen for p in s_.points]}
+            vs = []
+            crashed = [t.exc for t in s_.threads[1:3] if t.exc is not None]
+            if s_.deadlock or s_.livelock or exc is not None or alive or crashed:
+                vs.append(report.viol("concurrent:stuck-or-crash", "two concurrent resolutions did not both finish: %r" % (
+                    [s_.deadlock, s_.livelock, repr(exc), alive, [repr(c) for c in crashed]],), case))
+            elif got != want:
+                vs.append(report.viol("concurrent:resolution-differs", "a command line resolved while another thread resolves another line on the same "
+                                      "application gives another outcome than alone | lines %r" % (pair,), case, want, got))
+            return s_.points, vs
+
+        if only is not None:
+            return 1, run(only[1])[1]
+        st, vs = sched.explore(run, 1)
+        execs += st["execs"]
+        allv.extend(vs[:1])
+    return execs, allv
+
+
 def replay(case):
     """Re-execute exactly the recorded line (and, for a metamorphic relation, its recorded simpler form)."""
+    if case.get("check") == "concurrent":
+        vs = concurrent_resolutions((case["pair"], case.get("choices") or []))[1]
+        return vs[0] if vs else None
     if case.get("check") == "shared":
         return replay_shared(case)
     tree = tuple(tuple(t) for t in case["tree"])
@@ -908,7 +959,13 @@ def main():
              what="one CommandConfig object attached as sub-command to 2-3 parents (every profile vector; plain / aliased / default; "
                   "with and without an argument + option of its own): every parent by name and alias x sub-command named or entered "
                   "as default x words for the argument slots x options x '--' tail; selection and arguments known by construction")
-    rep.set("evaluations", tot.get("lines", 0) + tot.get("runs", 0) + sh_lines)
+    nsched, cv = concurrent_resolutions()
+    for v in cv:
+        rep.violation(v)
+    rep.part("concurrent_resolutions", schedules=nsched, pairs=len(CONC_PAIRS), preemption_bound=1,
+             granularity="source lines of args/default_args_parser.py",
+             what="two resolve_command() calls on one application (a command with two default sub-commands) at the same time")
+    rep.set("evaluations", tot.get("lines", 0) + tot.get("runs", 0) + sh_lines + nsched)
     rep.set("resolves", tot.get("lines", 0))
     rep.set("runs", tot.get("runs", 0))
     rep.set("trees", sum(d["trees"] for d in per_n.values()))
